@@ -43,6 +43,12 @@ M = [
     ("omit_llk_prev_store", "C01", "mchap/assemble/mcmc.py",
      "                llks[t - 1] = llk_prev\n", "                pass\n",
      "carried likelihood of the hotter chain not updated after an exchange"),
+    ("start_state_illegal_allele", "C01", "mchap/assemble/mcmc.py",
+     "            for j, n in enumerate(n_alleles[heterozygous]):\n                dist[j, n:] = 0.0\n", "",
+     "re-introduces the repaired defect e747dde: automatic start state may hold an allele index >= n_alleles[j]"),
+    ("start_state_illegal_allele_p", "C10", "mchap/assemble/mcmc.py",
+     "            for j, n in enumerate(n_alleles[heterozygous]):\n                dist[j, n:] = 0.0\n", "",
+     "same change seen by engine P: a no-coverage sample's record depends on heap state / other samples"),
     ("constant_ibs_off_by_one", "C02", "mchap/calling/prior.py",
      "constant_ibs = count_allele(genotype, genotype[variable_allele]) - 1", "constant_ibs = count_allele(genotype, genotype[variable_allele])",
      "Gibbs conditional prior counts the variable copy itself"),
